@@ -2,18 +2,18 @@ CONSTANTS
   MaxTS = 60
   MaxVal = 2
   Keys = {1}
-  Native = TRUE
-  MirrorDropsEmpty = FALSE
+  Native = FALSE
+  MirrorDropsEmpty = TRUE
   AppVals = {1, 2}
   MaxApp = 2
   MaxRemote = 1
   MaxIter = 1
   RetryCount = 2
-  MaxCrash = 1
+  MaxCrash = 0
   AllowWindow = FALSE
-  StartStates = {"empty", "data", "ownsnap", "data+ownsnap"}
-  OtherAtStart = {TRUE, FALSE}
-  MaxForce = 0
+  StartStates = {"empty", "data+ownsnap"}
+  OtherAtStart = {FALSE}
+  MaxForce = 1
   OnlyOnce = FALSE
 SPECIFICATION Spec
 INVARIANTS TypeOK NoLocalLoss PublishedWhenIdle ReadyMeansLoaded ReadyMeansPublished ExitOnlyWhenDone
